@@ -499,7 +499,8 @@ def gen_cases(tier, seed):
             forms += [{"l": [I + 1, 0]}, {"l": [I, I - 1, 0]}, {"a": [I + 2, 1]},                          # first entry past the extent, later ones stored
                       {"s": [-2, I + 2, None]}, {"s": [-2, I + 2, 1]}, {"s": [-2, I + 3, 2]}, {"s": [-I, I + 1, 2]},  # from the end, growing, every step form
                       {"s": [1, I + 2, 2]}, {"s": [0, I, 1]}, {"s": [None, None, -1]}, {"s": [I - 1, None, -2]},
-                      {"l": [I - 1, 0]}, {"l": [-1, 0]}, {"l": [0, 0, I - 1]}]
+                      {"l": [I - 1, 0]}, {"l": [-1, 0]}, {"l": [0, 0, I - 1]},
+                      {"s": [I + 2, 0, -1]}, {"s": [I + 4, None, -2]}, {"s": [I + 5, I + 2, -1]}]     # downward from past the extent: clamped, never growing
             for f_ in forms:
                 for others in ("all", "int", "short"):
                     key = []
